@@ -38,7 +38,7 @@ ASSUMPTIONS = [
     "quick tier replaces the diskcache library by an in-memory store with the same get/set/delete contract; sqlite-level behaviour is exercised only by the thorough tier",
 ]
 
-CORRUPTIONS = ["bitflip", "truncate", "type", "drop_hmac", "drop_payload", "hmac_type", "hmac_flip", "swap_payload", "swap_entry", "unloadable"]
+CORRUPTIONS = ["bitflip", "truncate", "type", "drop_hmac", "drop_payload", "hmac_type", "hmac_flip", "hmac_nonascii", "swap_payload", "swap_entry", "unloadable"]
 
 
 # ------------------------------------------------------------------ programs
@@ -95,7 +95,10 @@ def _add_shared(g: dict, rng: random.Random) -> list[str]:
         if not has_default:
             # graph A holds the closure made with key clA; the variant graph B holds its sibling made with key clB
             # under the same node name and output name (see _variant_graph)
-            if rng.random() < 0.5:
+            ck = rng.choice([None, None, "lambda", "method", "names"])
+            if ck:
+                g["nodes"].append({"kind": "fn", "name": "cl", "fid": "ckA", "closure": True, "ckind": ck, "ckind_which": "A", "params": [{"name": "a"}], "rename_inputs": {"a": src}, "outs": ["cl_o"], "cache": True})
+            elif rng.random() < 0.5:
                 g["nodes"].append({"kind": "fn", "name": "cl", "fid": "clA", "closure": True, "params": [{"name": "a"}], "rename_inputs": {"a": src}, "outs": ["cl_o"], "cache": True})
             else:
                 # siblings capturing values of different type that print alike: 1 and "1"
@@ -157,7 +160,10 @@ def _variant_graph(g: dict, variant: dict | None) -> dict:
     if variant.get("closure"):
         for nd in g2["nodes"]:
             if nd.get("closure"):
-                if "salt" in nd:
+                if nd.get("ckind"):
+                    nd["ckind_which"] = "B"
+                    nd["fid"] = "ckB"
+                elif "salt" in nd:
                     nd["salt"] = "1"
                     nd["fid"] = "cl:'1'"
                 else:
@@ -416,6 +422,9 @@ def _corrupt(store: dict, snapshot: dict, k: str, cls: str, rng: random.Random, 
     elif cls == "hmac_flip":
         h = store[k + ":hmac"]
         store[k + ":hmac"] = ("0" if h[0] != "0" else "1") + h[1:]
+    elif cls == "hmac_nonascii":
+        h = store[k + ":hmac"]
+        store[k + ":hmac"] = "\u00e9" + h[1:]  # still a str, but not ASCII
     elif cls == "swap_payload":
         others = [e for e in entries if e != k and snapshot[e] != raw]
         if not others:
